@@ -24,7 +24,7 @@ from lv.props import c13_gen as G
 ID = 'C13'
 # budget unit = one generated program or one in-process history (half and half);
 # the integration corpus is an enumerated sub-domain on top (split by index % shards)
-BUDGET = {'quick': 16 * 18, 'thorough': 16 * 260}
+BUDGET = {'quick': 16 * 10, 'thorough': 16 * 260}
 WALL = {'quick': 900, 'thorough': 5400}
 RULE = ('programs = every .l file under integration_tests (golden predicate of the '
         'repository runner; all predicates in the thorough tier; psql->duckdb variants) + '
@@ -56,14 +56,30 @@ ASSUMPTIONS = ['CPython string hashing is the only effect of PYTHONHASHSEED',
 _inc = set(x.strip().upper() for x in os.environ.get('VERIF_C13_INCLUDE', '').split(',')
            if x.strip())
 EXCLUDE_D2 = 'D2' not in _inc     # statement order of iteration closure follows set order
+EXCLUDE_D2B = 'D2B' not in _inc   # order of >= 2 iterative components follows set order
 EXCLUDE_D3 = 'D3' not in _inc     # parse.TOO_MUCH stays on after an incantation main file
 
-# corpus files whose single compilation takes 10 s and more: thorough tier only, and
-# never part of in-process histories (static list, not a timing decision at run time)
-HEAVY = {'psql_graph_coloring_test.l', 'psql_flow_test.l', 'clingo_recursive_test.l'}
+# Static cost table (seconds of one golden-predicate compilation, measured once on the
+# pinned tree) used ONLY to balance the corpus over shards and to keep slow files out of
+# the quick tier / the in-process histories.  Not a timing decision at run time.
+COST = {'corpus:psql_graph_coloring_test.l': 42, 'corpus-duck:psql_graph_coloring_test.l': 29,
+        'corpus:psql_flow_test.l': 24, 'corpus:clingo_recursive_test.l': 23,
+        'corpus:sqlite_shortest_path_test.l': 7.6, 'corpus:duckdb_smoothed_winmove_test.l': 6.2,
+        'corpus:sqlite_winmove_test.l': 4.7, 'corpus:clingo_timeout_test.l': 3.8,
+        'corpus:reachability_test.l': 3.8, 'corpus:psql_win_move_test.l': 3.6,
+        'corpus:manual_coloring_first_test.l': 2.8, 'corpus:sqlite_flat_recursion_test.l': 1.8,
+        'corpus-duck:psql_flow_test.l': 1.8, 'corpus:clingo_pipeline_test.l': 1.8,
+        'corpus-duck:psql_purchase_test.l': 1.6,
+        'corpus:dialects/clickhouse/shipping_funfacts_test.l': 1.6,
+        'corpus:strategic_test.l': 1.6, 'corpus:dialects/presto/reachability_test.l': 1.4,
+        'corpus:dialects/trino/reachability_test.l': 1.4,
+        'corpus:manual_coloring_second_test.l': 1.2}
+DEFAULT_COST = 0.6
+HEAVY_COST = 10          # thorough tier only
+HISTORY_MAX_COST = 2     # in-process histories use cheaper programs only
 
-QUICK = dict(gen_frac=0.55, alt_seeds=1, corpus_extra_preds=0, steps=5)
-THOROUGH = dict(gen_frac=0.6, alt_seeds=3, corpus_extra_preds=99, steps=10)
+QUICK = dict(gen_frac=0.5, alt_seeds=1, corpus_extra_preds=0, steps=5, min_tests=12)
+THOROUGH = dict(gen_frac=0.6, alt_seeds=3, corpus_extra_preds=99, steps=10, min_tests=40)
 BATCH = 40               # items per batch subprocess
 
 
@@ -73,9 +89,20 @@ def params(tier):
 
 # ------------------------------------------------------------------ buckets
 
-def seed_bucket(what):
-    return 'hashseed:' + what[0].split(':')[0] + (
-        ':' + what[0].split(':', 1)[1] if ':' in what[0] else '')
+def seed_bucket(what, oa=None, ob=None):
+    """Root-cause class of a hash-seed difference, from what is measurable outside:
+    * the plan's iterations were reached in a different order (>= 2 recursive components
+      unfolded in the order of Functors.args_of, a dict filled while walking a set);
+    * same order of iterations, and the plan closes over an iteration of >= 2 member
+      predicates (PerformIterationClosure translates the members in set order, which
+      moves statements and renumbers the allocator's aliases);
+    * anything else: named by the component that differs."""
+    if oa and ob and 'err' not in oa and 'err' not in ob:
+        if L.iteration_order(oa) != L.iteration_order(ob):
+            return 'hashseed:recursive_component_order'
+        if is_d2_class(oa) or is_d2_class(ob):
+            return 'hashseed:iteration_closure_order'
+    return 'hashseed:' + what[0]
 
 
 def history_bucket(what, base, obs):
@@ -84,6 +111,12 @@ def history_bucket(what, base, obs):
     if sb.get('too_much') != so.get('too_much'):
         return 'history:parser_switch_leak:TOO_MUCH=%s' % so.get('too_much')
     return 'history:' + what[0]
+
+
+def is_d2b_class(obs):
+    """Measured: the compiled plan contains at least two iterations (two iteratively
+    unfolded recursive components)."""
+    return len((obs or {}).get('iters', [])) >= 2
 
 
 def is_d2_class(obs):
@@ -120,7 +153,7 @@ def check_case(case):
             for xa, xb in pairs:
                 d, notes = L.compare(xa, xb)
                 if d:
-                    return [(seed_bucket(d),
+                    return [(seed_bucket(d, xa, xb),
                              'PYTHONHASHSEED=%s vs %s, steps %s\n%s\n--- program\n%s' % (
                                  a, b, json.dumps(steps), d[1],
                                  pool[steps[-1][1]]['text']))]
@@ -150,6 +183,9 @@ def _text_of_history(case):
     return case['pool'][case['steps'][-1][1]]['text']
 
 
+MIN_TESTS = [14]
+
+
 def minimise(case, bucket):
     def fails(c):
         return any(b == bucket for b, d in check_case(c))
@@ -165,7 +201,7 @@ def minimise(case, bucket):
         else:
             head = core.ddmin(case['steps'][:-1],
                               lambda hs: fails(dict(case, steps=list(hs) + [tgt])),
-                              max_tests=40)
+                              max_tests=MIN_TESTS[0])
             case = dict(case, steps=list(head) + [tgt])
     used = set(s[1] for s in case['steps'] if len(s) > 1)
     case['pool'] = {k: v for k, v in case['pool'].items() if k in used}
@@ -182,7 +218,7 @@ def minimise(case, bucket):
             c2 = json.loads(json.dumps(case))
             c2['pool'][pid]['text'] = ';\n'.join(ss)
             return c2
-        kept = core.ddmin(stmts, lambda ss: fails(with_text(ss)), max_tests=40)
+        kept = core.ddmin(stmts, lambda ss: fails(with_text(ss)), max_tests=MIN_TESTS[0])
         if len(kept) < len(stmts):
             case = with_text(kept)
     return case
@@ -209,14 +245,24 @@ def build_pool(ctx, col, prm):
     """-> ordered list of items (corpus share + generated), incantation items last."""
     items = []
     specs = [] if os.environ.get('VERIF_C13_CORPUS') == 'off' else L.corpus_specs()
-    for i, sp in enumerate(specs):
-        if i % ctx.n != ctx.k:
+    # longest-processing-time assignment over the static cost table (deterministic)
+    load = [0.0] * ctx.n
+    order = sorted(specs, key=lambda sp: (-COST.get(sp['id'], DEFAULT_COST), sp['id']))
+    mine = set()
+    for sp in order:
+        c = COST.get(sp['id'], DEFAULT_COST)
+        if c >= HEAVY_COST and ctx.tier != 'thorough':
+            if sp['id'] not in mine and ctx.k == 0:
+                col.exclude('quick_tier_skips_heavy_corpus_file')
             continue
-        base = sp['id'].split(':', 1)[1].split('/')[-1]
-        sp['heavy'] = base in HEAVY
-        if sp['heavy'] and ctx.tier != 'thorough':
-            col.exclude('quick_tier_skips_heavy_corpus_file')
+        j = min(range(ctx.n), key=lambda q: (load[q], q))
+        load[j] += c
+        if j == ctx.k:
+            mine.add(sp['id'])
+    for sp in specs:
+        if sp['id'] not in mine:
             continue
+        sp['cost'] = COST.get(sp['id'], DEFAULT_COST)
         sp['labels'] = ['shape:corpus']
         sp['prefer'] = sp.pop('golden')
         if L.INCANTATION in sp['text']:
@@ -228,7 +274,7 @@ def build_pool(ctx, col, prm):
     # every shard needs the special roles for its histories
     fixed = []
     core.hyp_run(fixed.append, st.tuples(G.failing_program(), G.incantation_program(),
-                                         G.tight_program(), G.rec_program()),
+                                         G.tight_program()),
                  6, ctx.hyp_seed + 2)
     gen += list(fixed[-1])         # (a late example: the first ones are the simplest)
     for j, it in enumerate(gen):
@@ -286,13 +332,16 @@ def own_hashseed():
 def _t(col, what, t0):
     if os.environ.get('VERIF_C13_TIMING'):
         import time
-        col.notes.append('timing %s %.1fs' % (what, time.time() - t0))
+        t = os.times()
+        col.notes.append('timing shard %s %.1fs wall, cpu %.1fs' % (
+            what, time.time() - t0, t[0] + t[1] + t[2] + t[3]))
 
 
 def shard(ctx, col):
     import time
     t_start = time.time()
     prm = params(ctx.tier)
+    MIN_TESTS[0] = prm['min_tests']
     alt_seeds, pick = _draw_plan(ctx, prm['alt_seeds'])
     hs0 = own_hashseed()           # the runner starts workers with PYTHONHASHSEED=0
     if hs0 is None:
@@ -344,13 +393,21 @@ def shard(ctx, col):
                     labels.append('outcome:compiled')
                     if is_d2_class(oa):
                         labels.append('iteration_closure_multi_member')
+                    if is_d2b_class(oa):
+                        labels.append('two_or_more_iterations')
                 d, notes = L.compare(oa, ob)
                 labels += notes
                 key = ('seeds', it['text'], p, hs)
                 nt = ms and 'err' not in oa
-                if d and EXCLUDE_D2 and d[0] == 'statement_order' and is_d2_class(oa):
-                    # known class: compared as a multiset of lines instead (equal here)
-                    col.exclude('D2:iteration_closure_statement_order')
+                if d and EXCLUDE_D2B and is_d2b_class(oa) and \
+                        seed_bucket(d, oa, ob) == 'hashseed:recursive_component_order':
+                    col.exclude('D2b:order_of_recursive_components_follows_hash_seed')
+                    col.case(key, False, labels + ['excluded:D2b'])
+                    continue
+                if d and EXCLUDE_D2 and is_d2_class(oa) and \
+                        seed_bucket(d, oa, ob) == 'hashseed:iteration_closure_order':
+                    # known class D2 (see seed_bucket): not compared across hash seeds
+                    col.exclude('D2:iteration_closure_order_follows_hash_seed')
                     col.case(key, False, labels + ['excluded:D2'])
                     continue
                 col.case(key, nt, labels + (['multiset'] if ms else []),
@@ -385,6 +442,7 @@ class Hist(object):
     def __init__(self, ctx, col, pool, baseline, by_role, hs0):
         self.ctx, self.col, self.pool, self.baseline = ctx, col, pool, baseline
         self.hs0 = hs0
+        self.roles_of = {k: v.get('role') for k, v in pool.items()}
         self.by_role = by_role
         self.process_log = []          # every step executed in this process so far
         self.steps = None
@@ -416,6 +474,14 @@ class Hist(object):
         self.steps.append(st_)
         self.process_log.append(st_)
         o = self.session.step(st_)
+        if EXCLUDE_D3 and len(st_) > 1 and self.roles_of.get(st_[1]) == 'incantation':
+            # known class D3: the parser switch stays on after an incantation main file;
+            # the harness puts it back so that the search continues past this defect
+            self.col.exclude('D3:parser_switch_reset_after_incantation_main_file')
+            r = ['reset_too_much']
+            self.steps.append(r)
+            self.process_log.append(r)
+            self.session.step(r)
         if not isinstance(o, dict):
             return
         pid, pred = st_[1], st_[2]
@@ -468,8 +534,8 @@ def run_histories(ctx, col, prm, items, pool, baseline, n_hist, hs0):
         preds = [p for (i, p) in baseline if i == it['id'] and p != '<parse>']
         if not preds:
             continue
-        if it.get('heavy'):
-            col.exclude('heavy_corpus_file_not_in_histories')
+        if it.get('cost', 0) > HISTORY_MAX_COST:
+            col.exclude('slow_corpus_file_not_in_histories')
             continue
         usable.append((it, preds))
     roles = {'any': usable,
@@ -507,9 +573,6 @@ def run_histories(ctx, col, prm, items, pool, baseline, n_hist, hs0):
 
         def _compile(self, it, p):
             H.do(['compile', it['id'], p])
-            if it.get('role') == 'incantation' and EXCLUDE_D3:
-                col.exclude('D3:parser_switch_reset_after_incantation_main_file')
-                H.do(['reset_too_much'])
 
         @precondition(lambda self: bool(roles['failing']))
         @rule(j=idx, pi=idx)
@@ -564,4 +627,5 @@ def run_histories(ctx, col, prm, items, pool, baseline, n_hist, hs0):
 
 
 def evidence_extra(col):
-    return {'exclusion_flags': {'EXCLUDE_D2': EXCLUDE_D2, 'EXCLUDE_D3': EXCLUDE_D3}}
+    return {'exclusion_flags': {'EXCLUDE_D2': EXCLUDE_D2, 'EXCLUDE_D3': EXCLUDE_D3,
+                                'EXCLUDE_D2B': EXCLUDE_D2B}}
